@@ -45,6 +45,7 @@ class GenConfig:
         self.defaults_always = True
         self.simple_exprs = True
         self.tame_conditions = False   # comparisons only between a variable-like atom and a constant (no compiler-warned tautologies)
+        self.const_conditions = 0      # n in 10 conditions are comparisons of a constant expression (division / remainder / shifts of signed constants)
         for k, v in kw.items():
             if k == "kinds":
                 self.kinds = dict(self.kinds)
@@ -262,6 +263,13 @@ def bool_expr(draw, env, depth=2, last_ok=False):
 
 @st.composite
 def condition(draw, env, last_ok=False):
+    if env.cfg.const_conditions and draw(st.integers(0, 9)) < env.cfg.const_conditions:
+        # decided at compile time if the compiler folds it: the folded value must be C's (truncating division, sign of the dividend)
+        a = draw(st.sampled_from([-7, -1, 7, -9, 9, 100, -100]))
+        b = draw(st.sampled_from([2, 3, -2, 4, -4]))
+        op2 = draw(st.sampled_from(["/", "/", "%", "%", "*", "-"]))
+        v = draw(st.sampled_from([-4, -3, -2, -1, 0, 1, 2, 3]))
+        return ("bin", draw(st.sampled_from(["==", "!=", "<", ">=", "==", "=="])), ("bin", op2, ("num", a, "dec"), ("num", b, "dec")), ("num", v, "dec"))
     if draw(st.integers(0, 4)) == 0 and env.ints:
         return ("var", draw(st.sampled_from(env.ints))[1])      # integer used as condition
     return draw(bool_expr(env, draw(st.integers(0, 1)), last_ok))
@@ -708,7 +716,8 @@ def break_loop_program(draw):
     k = draw(st.integers(1, 3))
     cond = ("bin", draw(st.sampled_from([">=", "=="])), ("var", "n0"), ("num", k, "dec"))
     brk = ("break", draw(st.sampled_from([None, "lp0"])))
-    where = draw(st.sampled_from(["if", "if-if", "if-if-trailing", "if-else", "case-clause", "case-clause-trailing", "if-if-else"]))
+    where = draw(st.sampled_from(["if", "if-if", "if-if-trailing", "if-else", "case-clause", "case-clause-trailing", "if-if-else", "case-else-then-if",
+                                  "case-yield-then-if"]))
     count = ("assign", "n0", ("bin", "+", ("var", "n0"), ("num", 1, "dec")))
     hook = ("hook", "h0")
     if where == "if":
@@ -723,6 +732,16 @@ def break_loop_program(draw):
     elif where == "if-if-else":
         inner = (("match", ("lit", tok, "str")), count,
                  ("if", ((("bin", ">=", ("var", "n0"), ("num", 0, "dec")), (("if", ((("bin", "<", ("var", "n0"), ("num", k, "dec")), (hook,)),), (brk,)),)),), None))
+    elif where in ("case-else-then-if", "case-yield-then-if"):
+        # one conditional break object behind a case whose arms end differently (consuming / falling through / resuming after a yield)
+        count1 = ("assign", "n1", ("bin", "+", ("var", "n1"), ("num", 1, "dec")))
+        either = ("bin", "||", cond, ("bin", ">=", ("var", "n1"), ("num", k, "dec")))
+        if where == "case-else-then-if":
+            inner = (("match", ("lit", b"b", "str")), ("case", False, ((((("lit", tok, "str"),), None, (count,))), (("else",), None, (count1,)))),
+                     ("if", ((either, (brk,)),), None))
+        else:
+            inner = (("case", False, ((((("lit", tok, "str"),), None, (count,))), (((("lit", b"b", "str"),), None, (count1, ("yield", "Y0"))))),),
+                     ("if", ((either, (brk,)),), None))
     elif where == "case-clause":
         inner = (("case", False, ((((("lit", tok, "str"),), None, (count,))), (((("lit", b";", "str"),), None, (brk,))))),)
     else:
@@ -737,10 +756,17 @@ def break_loop_program(draw):
     else:
         tail = (("append", "s0", ("re", ("op", ("set", (("r", 0x61, 0x66),), False), "+"), False)), ("match", ("lit", b".", "str")))
     body = (("loop", "lp0", inner),) + tail
-    prog = _ir.Program([("int", "n0", False, None, 0), ("int", "n1", False, None, 0), ("str", "s0", 4, True, None, False)], ["h0"], [], [], [], body,
-                       [draw(st.sampled_from(OPT_LEVELS))])
+    yld = where == "case-yield-then-if"
+    prog = _ir.Program([("int", "n0", False, None, 0), ("int", "n1", False, None, 0), ("str", "s0", 4, True, None, False)], ["h0"], [], ["Y0"] if yld else [], [], body,
+                       [draw(st.sampled_from(OPT_LEVELS + ["-O3"] if where.endswith("then-if") else OPT_LEVELS))] + (["-fyield-support"] if yld else []))
     sep = b";" if where.startswith("case-clause") else b""
     datas = []
+    if where.endswith("then-if"):
+        one_a = (b"b" + tok) if where == "case-else-then-if" else tok
+        for head in (one_a * k, b"b" * k, one_a * (k - 1) + b"b" * k, b"b" * (k - 1) + one_a * k, one_a + b"b" * k):
+            for t in (b"end", b"e.", b".", tok + b"!"):
+                datas.append(head + t)
+        return prog, datas
     for extra in (0, 1):
         head = tok * (k + extra) + sep
         for t in (b"end", tok + b"!", b"e.", b".", b"abc."):
